@@ -2,8 +2,10 @@ pub mod common;
 pub mod c06;
 pub mod qrig;
 pub mod c05;
+pub mod c05_drv;
 pub mod c19;
 pub mod c07;
+pub mod c07_drv;
 pub mod c10;
 pub mod c12;
 pub mod c11;
@@ -24,10 +26,10 @@ use crate::Ctx;
 pub fn run(prop: &str, ctx: &mut Ctx) -> bool {
     match prop {
         "C06" => c06::run(ctx),
-        "C05" => c05::run(ctx),
+        "C05" => { c05::run(ctx); c05_drv::run(ctx); }
         // C19 also covers the sound notification queue and the socket receive path (bytes delivered = bytes the packet holds)
         "C19" => { c19::run(ctx); c20_snd::run_notifications(ctx); c17::run_read_header(ctx); }
-        "C07" => { c07::run(ctx); c13::run_device_chosen(ctx); }
+        "C07" => { c07::run(ctx); c13::run_device_chosen(ctx); c07_drv::run(ctx); }
         "C10" => c10::run(ctx),
         "C12" => c12::run(ctx),
         "C11" => c11::run(ctx),
